@@ -158,6 +158,18 @@ def degraded_units(results, pids):
 
 
 def property_meta(pid):
+    """explanation / unproved clauses of the evidence come from the same table that generates MANIFEST.json (tools/claims.py)"""
+    if pid not in PROPERTY_META:
+        try:
+            import importlib.util
+
+            spec = importlib.util.spec_from_file_location("ujvc_claims", os.path.join(VERIF, "tools", "claims.py"))
+            m = importlib.util.module_from_spec(spec)
+            spec.loader.exec_module(m)
+            c = m.CLAIMED.get(pid, {})
+            PROPERTY_META[pid] = {"explanation": c.get("text", ""), "unproved_clauses": [c["note"]] if c.get("note") else []}
+        except Exception:  # noqa: BLE001
+            PROPERTY_META[pid] = {}
     return PROPERTY_META.get(pid, {})
 
 
